@@ -2,7 +2,7 @@
    decoded and encoded exactly).  Statements only; proofs are in Proofs/ScriptProofs.v.
    `from_bytes` is the model of Script::from_bytes (tied to the Rust code by the correspondence run),
    `tokenize_spec`/`balanced`/`minimal_prefix` are the independent specification (Spec/ScriptTok.v). *)
-From BSV Require Import Base.Hex Model.Opcodes Model.Script Spec.ScriptTok Proofs.ScriptProofs.
+From BSV Require Import Base.Hex Model.Opcodes Model.Script Spec.ScriptTok Proofs.ScriptProofs Proofs.ScriptFixpoint.
 
 (* 1+2. Every accepted byte string outside the known-finding class re-serialises to exactly itself, and its
    parsed element sequence (conditionals flattened in order) is what the independent tokenizer reads.
@@ -25,6 +25,16 @@ Theorem C02_roundtrip_length :
   forall bs s, from_bytes bs = Ok s -> truncated_tail bs = false -> length (to_bytes s) = length bs.
 Proof. exact roundtrip_length. Qed.
 Print Assumptions C02_roundtrip_length.
+
+(* 1c. Parse-then-serialise is idempotent on bytes for EVERY accepted input, also inside the known-finding class:
+   what the library serialises is itself accepted, outside the class, no longer than the input, and a fixed point. *)
+Theorem C02_serialisation_is_fixpoint :
+  forall sb s, from_bytes sb = Ok s ->
+    truncated_tail (to_bytes s) = false /\
+    length (to_bytes s) <= length sb /\
+    exists s', from_bytes (to_bytes s) = Ok s' /\ to_bytes s' = to_bytes s.
+Proof. exact serialisation_is_fixpoint. Qed.
+Print Assumptions C02_serialisation_is_fixpoint.
 
 (* 3. Acceptance: a byte string is accepted exactly when the independent tokenizer reads it completely (no
    truncated OP_PUSHDATAn, no unknown opcode byte) and its conditionals are closed; otherwise it is rejected
